@@ -785,20 +785,16 @@ impl<T: Serialize + for<'de> Deserialize<'de> + Clone + PartialEq + Send + Sync 
             ))
         })?;
 
-        // Calculate checksum
-        let mut hasher = Sha256::new();
-        hasher.update(&snapshot_data);
-        let checksum: [u8; 32] = hasher.finalize().into();
-
-        // Create snapshot header
-        let header = SnapshotHeader {
+        // Create snapshot header; the checksum covers the header fields and the payload
+        let mut header = SnapshotHeader {
             version: WAL_VERSION,
             created_at: current_timestamp(),
             last_transaction_id,
             entry_count: current_state.len() as u64,
             total_size: snapshot_data.len() as u64,
-            checksum,
+            checksum: [0u8; 32],
         };
+        header.checksum = Self::snapshot_checksum(&header, &snapshot_data);
 
         // Write snapshot to temp file
         {
@@ -1173,6 +1169,18 @@ impl<T: Serialize + for<'de> Deserialize<'de> + Clone + PartialEq + Send + Sync 
         Ok(entries_recovered)
     }
 
+    /// Checksum binding a snapshot's header fields to its payload bytes
+    fn snapshot_checksum(header: &SnapshotHeader, payload: &[u8]) -> [u8; 32] {
+        let mut hasher = Sha256::new();
+        hasher.update([header.version]);
+        hasher.update(header.created_at.to_le_bytes());
+        hasher.update(header.last_transaction_id.to_le_bytes());
+        hasher.update(header.entry_count.to_le_bytes());
+        hasher.update(header.total_size.to_le_bytes());
+        hasher.update(payload);
+        hasher.finalize().into()
+    }
+
     /// Create WAL entry with HMAC
     fn create_wal_entry(
         &self,
@@ -1357,11 +1365,9 @@ impl<T: Serialize + for<'de> Deserialize<'de> + Clone + PartialEq + Send + Sync 
             ))
         })?;
 
-        // Checksum of the payload exactly as stored (re-serialising the map would not
-        // reproduce the stored byte order)
-        let mut hasher = Sha256::new();
-        hasher.update(&snapshot_data);
-        let payload_checksum: [u8; 32] = hasher.finalize().into();
+        // Checksum of the header fields and of the payload exactly as stored (re-serialising
+        // the map would not reproduce the stored byte order)
+        let payload_checksum = Self::snapshot_checksum(&header, &snapshot_data);
 
         // Deserialize state
         let state: HashMap<String, T> = postcard::from_bytes(&snapshot_data).map_err(|e| {
